@@ -72,7 +72,11 @@ let one_page r items : 'a heap = [ HPage (mkpage r items) ]
 let words = [| "alpha"; "password"; "token"; "secret"; "beta"; "gamma"; "delta"; "omega" |]
 let gen_doc r : (string * jv) list =
   let n = rrange r 3 5 in
-  let keys = take n (shuffle r [ "alpha"; "k"; "zz"; "beta"; "Key"; "a1"; "password"; "x_y" ]) in
+  (* every second document has three or four keys that differ only in letter case: an ordering that compares keys
+     case-insensitively (or by length only) leaves their relative order to Go's map iteration (seeded change C11-1) *)
+  let keys =
+    if rbool r then take n (shuffle r [ "alpha"; "k"; "zz"; "beta"; "Key"; "a1"; "password"; "x_y" ])
+    else take (rrange r 3 4) (shuffle r [ "id"; "ID"; "Id"; "iD" ]) @ take (n - 3) (shuffle r [ "k"; "Key"; "key"; "KEY" ]) in
   List.map (fun k -> (k, match rint r 4 with 0 -> JB (rbool r) | 1 -> JN | _ -> JS (pick r words ^ string_of_int (rint r 100)))) keys
 
 let build_fixture r : fx =
